@@ -787,7 +787,9 @@ async fn mode_c07(args: &Args, sum: &mut Summary) {
             HEADER, coq_list(base.ops.iter().map(coq_op)), coq_files(&base.files),
             coq_list(table_for(&base.key, &[&base.files]).iter().map(|(f, t)| format!("({}, {})", cb(f), cb(t)))));
         let mut w = CaseWriter::new(&args.out, &format!("cases_c07_b{:03}", h), &header, "c07_case", "check_c07", "prop_c07", 40);
+        let only = args.extra.get("only").cloned();
         for m in mutations(&base, &other, &mut r, per_kind) {
+            if let Some(o) = &only { if !m.kind.contains(o.as_str()) { continue; } }
             let md = root.join("m");
             let _ = std::fs::remove_dir_all(&md); std::fs::create_dir_all(&md).unwrap();
             std::fs::write(md.join(".state.key"), &base.key).unwrap();
